@@ -441,7 +441,95 @@ def translate_rekey_constants():
     return src, {k.lower(): ([], []) for k in want}
 
 
+SEND_SHARED_CALLS = ("write_all", "_build_packet", "_trigger_rekey", "_inc_iv_counter")
+
+
+def _shared_out_state(node):
+    """accesses of per-direction shared state of the sender in an AST fragment: `self.__*_out`, the sent / overflow
+    counters, the rekey flag, and the helpers that use them"""
+    n = 0
+    for x in ast.walk(node):
+        if isinstance(x, ast.Attribute) and isinstance(x.value, ast.Name) and x.value.id == "self":
+            a = x.attr
+            if (a.startswith("__") and a.endswith("_out")) or a in ("__sent_bytes", "__sent_packets", "__need_rekey",
+                                                                     "__received_bytes_overflow", "__received_packets_overflow") \
+                    or a in SEND_SHARED_CALLS:
+                n += 1
+    return n
+
+
+def translate_send_lock():
+    """Packetizer.send_message: the facts that make concurrent senders linearise — ONE `__write_lock` region, acquired
+    unconditionally and blocking (no arguments, or else the result would have to be tested), released in `finally`,
+    and no access to shared per-direction state (compressor, sequence number, engines, write_all, …) outside it."""
+    from paramiko.packet import Packetizer
+
+    fn = _fn_ast(Packetizer.send_message)
+    acq = [i for i, st in enumerate(fn.body) if any(
+        isinstance(c, ast.Call) and ast.unparse(c.func) == "self.__write_lock.acquire" for c in ast.walk(st))]
+    if len(acq) != 1:
+        raise Untranslatable("send_message: expected exactly one statement acquiring __write_lock, found %d" % len(acq))
+    i = acq[0]
+    st = fn.body[i]
+    call = next(c for c in ast.walk(st) if isinstance(c, ast.Call) and ast.unparse(c.func) == "self.__write_lock.acquire")
+    unconditional = isinstance(st, ast.Expr) and st.value is call and not call.args and not call.keywords
+    nxt = fn.body[i + 1] if i + 1 < len(fn.body) else None
+    in_finally = (isinstance(nxt, ast.Try) and len(nxt.finalbody) == 1 and not nxt.handlers
+                  and ast.unparse(nxt.finalbody[0]) == "self.__write_lock.release()" and i + 2 == len(fn.body))
+    outside = sum(_shared_out_state(x) for x in fn.body[:i]) + sum(_shared_out_state(x) for x in fn.body[i + 2:])
+    if isinstance(nxt, ast.Try):
+        outside += sum(_shared_out_state(x) for x in nxt.finalbody)
+    inside = _shared_out_state(nxt) if nxt is not None else 0
+    src = ("def send_lock_acquire_unconditional : Bool :=\n  %s\n\ndef send_lock_released_in_finally : Bool :=\n  %s\n\n"
+           "def send_shared_state_outside_lock : Int :=\n  (%d : Int)\n\ndef send_shared_state_inside_lock : Int :=\n  (%d : Int)\n"
+           % (_b(unconditional), _b(in_finally), outside, inside))
+    return src, {"send_lock_acquire_unconditional": ([], []), "send_lock_released_in_finally": ([], []),
+                 "send_shared_state_outside_lock": ([], []), "send_shared_state_inside_lock": ([], [])}
+
+
+def translate_mac_guards():
+    """Packetizer.read_message: each `raise SSHException("Mismatched MAC")` is nested under exactly ONE `if` inside the
+    function besides its own comparison — the branch selecting the receive path — never under a length condition.
+    -> the nesting depth per branch and the guard tests"""
+    from paramiko.packet import Packetizer
+
+    fn = _fn_ast(Packetizer.read_message)
+    found = []
+
+    def walk(stmts, guards):
+        for st in stmts:
+            if isinstance(st, ast.If):
+                if any(isinstance(x, ast.Raise) and "Mismatched MAC" in ast.unparse(x) for x in st.body) \
+                        and "constant_time_bytes_eq" in ast.unparse(st.test):
+                    found.append(list(guards))
+                walk(st.body, guards + [ast.unparse(st.test)])
+                walk(st.orelse, guards + ["not (" + ast.unparse(st.test) + ")"])
+            elif isinstance(st, (ast.For, ast.While, ast.With, ast.Try)):
+                raise Untranslatable("read_message: compound statement %s" % type(st).__name__)
+
+    walk(fn.body, [])
+    if len(found) != 2:
+        raise Untranslatable("read_message: expected two MAC comparisons (etm, classic), found %d" % len(found))
+    etm, classic = found
+    want_etm = ["self.__etm_in"]
+    want_classic = ["self.__mac_size_in > 0 and (not self.__etm_in) and (not self.__aead_in)"]
+    ok_etm = etm[:1] == want_etm
+    ok_classic = classic[:1] == want_classic
+    src = ("def read_etm_mac_guard_depth : Int :=\n  (%d : Int)\n\ndef read_classic_mac_guard_depth : Int :=\n  (%d : Int)\n\n"
+           "def read_mac_guards_are_the_mode_tests : Bool :=\n  %s\n"
+           % (len(etm), len(classic), _b(ok_etm and ok_classic)))
+    return src, {"read_etm_mac_guard_depth": ([], []), "read_classic_mac_guard_depth": ([], []),
+                 "read_mac_guards_are_the_mode_tests": ([], [])}
+
+
 EXPECTED_SIG = {
+    "send_lock_acquire_unconditional": ([], []),
+    "send_lock_released_in_finally": ([], []),
+    "send_shared_state_outside_lock": ([], []),
+    "send_shared_state_inside_lock": ([], []),
+    "read_etm_mac_guard_depth": ([], []),
+    "read_classic_mac_guard_depth": ([], []),
+    "read_mac_guards_are_the_mode_tests": ([], []),
     "rekey_packets": ([], []),
     "rekey_bytes": ([], []),
     "rekey_packets_overflow_max": ([], []),
@@ -470,10 +558,14 @@ def gen_lean(ctx=None):
     k2, s2 = translate_counters()
     k3, s3 = translate_write_all()
     k4, s4 = translate_rekey_constants()
+    k5, s5 = translate_send_lock()
+    k6, s6 = translate_mac_guards()
     sig = dict(s1)
     sig.update(s2)
     sig.update(s3)
     sig.update(s4)
+    sig.update(s5)
+    sig.update(s6)
     if sig != EXPECTED_SIG:
         raise Untranslatable("kernel inputs changed: %r" % sig)
     lines = [
@@ -508,6 +600,8 @@ def gen_lean(ctx=None):
     lines.append(k2)
     lines.append(k3)
     lines.append(k4)
+    lines.append(k5)
+    lines.append(k6)
     lines.append("end PV.Generated.C03")
     return "\n".join(lines) + "\n"
 
@@ -984,3 +1078,146 @@ def read_message_retrying(pk, limit=100000):
         except Exception:
             restore()
             raise
+
+
+# ----------------------------------------------------------------------------------------------
+# concurrent senders: two logical threads inside send_message of ONE real Packetizer, run under a chosen schedule
+# (pv.lib_coop): yield points at the write-lock acquisition (a timed acquisition may expire), inside the compressor
+# (before compress() and before flush()), and inside write_all after every (partial) send
+# ----------------------------------------------------------------------------------------------
+class _YieldZ:
+    """proxy for the zlib compressobj of the REAL ZlibCompressor: the logical thread parks before compress() and
+    before flush(), so another sender can be scheduled in between"""
+
+    def __init__(self, z):
+        self._z = z
+
+    def _yield(self):
+        from pv import lib_coop
+
+        me = lib_coop.current()
+        if me is not None:
+            me._park("event", self)
+
+    def compress(self, data):
+        self._yield()
+        return self._z.compress(data)
+
+    def flush(self, *a):
+        self._yield()
+        return self._z.flush(*a)
+
+
+class CoopSock:
+    """send() accepts a scripted number of bytes and then parks the calling logical thread"""
+
+    def __init__(self, rng):
+        self.buf = bytearray()
+        self.rng = rng
+        self.writers = []  # (thread name, bytes) in the order the socket accepted them
+
+    def send(self, data):
+        from pv import lib_coop
+
+        n = len(data)
+        k = n if self.rng.random() < 0.4 else self.rng.randrange(1, n + 1)
+        self.buf += data[:k]
+        me = lib_coop.current()
+        self.writers.append((me.name if me is not None else "main", k))
+        if me is not None:
+            me._park("event", self)
+        return k
+
+    def close(self):
+        pass
+
+
+def concurrent_senders(ctx, Packetizer, Message, cipher, mac, comp, salt, nthreads=2, per_thread=2):
+    """-> None, or (signature, case, detail).  Oracle (independent parser, ONE stateful inflater, wire order): the wire
+    is a concatenation of whole well-framed packets, each carrying exactly one of the messages sent, every message of a
+    call that returned normally exactly once."""
+    import zlib
+    from pv import lib_coop
+    from pv.core import InfraError
+
+    rng = ctx.rng
+    sched = lib_coop.Coop()
+    sock = CoopSock(rng)
+    pk = Packetizer(sock)
+    pk._initial_kex_done = True
+    wire_up(pk, Packetizer(SinkSock()), cipher, mac, comp, salt=salt)
+    seq0 = rng.choice([0, 9, 0xFFFFFFFE])
+    set_seq(pk, out=seq0)
+    pk._Packetizer__write_lock = lib_coop.CoopLock(sched, "write_lock", reentrant=True, always_yield=True)
+    zc = pk._Packetizer__compress_engine_out
+    if zc is not None and hasattr(zc, "z"):
+        zc.z = _YieldZ(zc.z)
+    threads = [sched.thread("T%d" % i) for i in range(nthreads)]
+    msgs = {t.name: [bytes([90 + i]) + rng.randbytes(rng.choice([1, 7, 30, 200])) + bytes([j]) for j in range(per_thread)]
+            for i, t in enumerate(threads)}
+    todo = {t.name: list(msgs[t.name]) for t in threads}
+    returned, raised = [], []
+    trace = []
+    case = {"cipher": cipher, "mac": mac, "compression": comp, "salt": salt, "seq0": seq0,
+            "messages": {k: [x.hex() for x in v] for k, v in msgs.items()}}
+    try:
+        for _ in range(20000):
+            for t in threads:  # collect finished calls, hand out the next message
+                if t.state == "idle" and t.job is None:
+                    if t.result is not None:
+                        kind, val = t.result
+                        (returned if kind == "ok" else raised).append((t.name, t.current_msg, None if kind == "ok" else repr(val)))
+                        t.result = None
+                    if todo[t.name]:
+                        m = todo[t.name].pop(0)
+                        t.current_msg = m
+                        t.job = (lambda mm: (lambda: pk.send_message(Message(mm))))(m)
+            choices = [("step", t) for t in threads if t.state != "done" and sched.enabled(t)]
+            choices += [("expire", t) for t in threads if sched.can_expire(t)]
+            if not choices:
+                break
+            what, t = rng.choice(choices)
+            before = t.state
+            if what == "expire":
+                sched.expire(t)
+            else:
+                sched.step(t)
+            trace.append("%s:%s:%s" % (t.name, what if what == "expire" else before, t.state))
+        else:
+            raise InfraError("concurrent senders did not finish")
+        stuck = [t.name for t in threads if t.state not in ("idle", "done")]
+    finally:
+        sched.shutdown()
+    case["schedule"] = trace[-120:]
+    if stuck:
+        return ("concurrent-send:deadlock", case, "threads %s never finished" % stuck)
+    wire = bytes(sock.buf)
+    ref = RefReceiver(cipher, mac, salt=salt, seq=seq0)
+    unz = zlib.decompressobj() if comp != "none" else None
+    rest, got, k = wire, [], 0
+    while rest:
+        try:
+            f, rest = ref.parse_one(rest)
+            if not (f["mac_ok"] and 4 <= f["pad"] <= 255 and f["encrypted_len"] % ref.block == 0):
+                raise ValueError("ill-framed: pad %d, encrypted %d, mac_ok %s" % (f["pad"], f["encrypted_len"], f["mac_ok"]))
+            payload = unz.decompress(f["payload"]) if unz else f["payload"]
+        except Exception as e:
+            return ("concurrent-send:wire-not-whole-packets", dict(case, writers=sock.writers[-12:]),
+                    "packet %d on the wire of two concurrent senders: %s: %s" % (k, type(e).__name__, e))
+        got.append(payload)
+        k += 1
+    sent_ok = [m for _, m, _ in returned]
+    allmsgs = [m for v in msgs.values() for m in v]
+    for g in got:
+        if g not in allmsgs:
+            return ("concurrent-send:packet-is-no-sent-message", case,
+                    "packet carries %d bytes %s… which no sender sent" % (len(g), g[:16].hex()))
+    for m in sent_ok:
+        if got.count(m) != 1:
+            return ("concurrent-send:message-lost-or-duplicated", case,
+                    "message %s… of a send_message call that returned is on the wire %d times" % (m[:8].hex(), got.count(m)))
+    for name, m, err in raised:
+        if "EOFError" not in (err or ""):
+            return ("concurrent-send:send_message-raised", case, "%s raised %s" % (name, err))
+    ctx.dist("concurrent-send:%s:%s" % ("gcm" if ref.gcm else "etm" if ref.etm else "classic", comp))
+    return None
